@@ -240,6 +240,11 @@ def run(tier):
         jobs.append({"family": "narrowing_chain", "seed": "c03n-%d-%d" % (vlib.seed(), rep),
                      "args": ["--accelerator-config", ["ethos-u55-128", "ethos-u55-256", "ethos-u65-256"][rep % 3], "--arena-cache-size",
                               str([80000, 90000, 75000, 85000, 100000, 60000][rep % 6])], "capture": True})
+    # a RESHAPE that has to be a copy, followed by an in-place elementwise operator, next to another reader of the copied tensor
+    for rep in range(12 if tier == "quick" else 240):
+        jobs.append({"family": "memcpy_reshape", "seed": "c03r-%d-%d" % (vlib.seed(), rep),
+                     "args": ["--accelerator-config", ["ethos-u55-128", "ethos-u65-256", "ethos-u55-64"][rep % 3]] +
+                             ([] if rep % 2 else ["--optimise", "Size"]), "capture": True})
     # whole inference: networks in which CPU and Ethos-U operators alternate, several graph inputs, shared operands
     wjobs = compiles.plan(W_FAMS, 48 if tier == "quick" else 1200, vlib.seed(), tag="c03w", capture=False)
     results = compiles.run_all(jobs + wjobs, timeout=900)
